@@ -173,6 +173,24 @@ class Ext:
         return f"<ext {self.dotted}>"
 
 
+EXT_CONSTANTS = {}
+
+
+def _ext_constant(dotted):
+    """plain values of the standard library that a module may use at import time (string.ascii_uppercase, ...)"""
+    if not EXT_CONSTANTS:
+        import string as _string
+        for n_ in ("ascii_letters", "ascii_lowercase", "ascii_uppercase", "digits", "hexdigits", "octdigits", "punctuation", "printable", "whitespace"):
+            EXT_CONSTANTS["string." + n_] = getattr(_string, n_)
+    return EXT_CONSTANTS[dotted] if dotted in EXT_CONSTANTS else Ext(dotted)
+
+
+class StructVal:
+    """struct.Struct(fmt): pack / unpack / size through the same models as struct.pack / struct.unpack"""
+    def __init__(self, fmt):
+        self.format = fmt
+
+
 STEP_BUDGET = 400_000
 PATH_SECONDS = 6
 EXPLORE_SECONDS = 8
@@ -827,7 +845,7 @@ class Interp:
                         self.store_name(local, self.module_get(s.module, a.name), env)
         else:
             for a in s.names:
-                self.store_name(a.asname or a.name, Ext(f"{s.module}.{a.name}"), env)
+                self.store_name(a.asname or a.name, _ext_constant(f"{s.module}.{a.name}"), env)
 
     def x_Nonlocal(self, s, env, mod):
         env.nonlocals.update(s.names)
@@ -1349,6 +1367,17 @@ class Interp:
             r = self.attr_hook(obj, name)
             if r is not NotImplemented:
                 return r
+        if isinstance(obj, StructVal):
+            fmt = obj.format
+            if name == "pack":
+                return PyFn(lambda I_, a, k: I_.call_ext(Ext("struct.pack"), [fmt] + list(a), k, None, None, None), "Struct.pack")
+            if name == "unpack":
+                return PyFn(lambda I_, a, k: I_.call_ext(Ext("struct.unpack"), [fmt] + list(a), k, None, None, None), "Struct.unpack")
+            if name == "size":
+                return _struct.calcsize(fmt)
+            if name == "format":
+                return fmt
+            raise Raised(ExcVal("AttributeError", args=(f"Struct.{name}",)))
         if isinstance(obj, Rec):
             if name in obj.fields:
                 return obj.fields[name]
@@ -1391,7 +1420,7 @@ class Interp:
             if obj.dotted == "sys" and name == "maxsize":
                 import sys as _sys
                 return _sys.maxsize
-            return Ext(obj.dotted + "." + name)
+            return _ext_constant(obj.dotted + "." + name)
         if isinstance(obj, SuperProxy):
             mro = obj.obj.cls.mro() if isinstance(obj.obj, Rec) else obj.obj.mro()
             idx = mro.index(obj.after)
@@ -1982,6 +2011,12 @@ class Interp:
             if hasattr(_b, name):
                 return Ext("builtins." + name)
             return args[1] if len(args) > 1 else None
+        if d == "struct.Struct":
+            if not args or not isinstance(args[0], (str, bytes)):
+                raise Unsupported("struct.Struct with a format that is not a literal")
+            return StructVal(args[0])
+        if d == "struct.calcsize" and args and isinstance(args[0], (str, bytes)):
+            return _struct.calcsize(args[0])
         if d == "struct.pack":
             flat = []
             for a in args:
